@@ -241,6 +241,18 @@ def generate(prop, seed, tier="quick", fault_free=False):
                         op["relocate"] = True
                 ops.append(op)
                 bid += 1
+    # a very long chain, hashed with different amounts of stack left (recursion limit of the
+    # process, depth of the caller): no hash is acceptable, two different hashes are not
+    if (not fault_free) and w.random() < 0.35:
+        base = [list(s) for s in w.choice(BASES[:8])]
+        rep_k = w.choice([60, 110, 150, 170, 220])
+        for limit in (1000, 3000, 1000):
+            ops.append({"op": "build", "id": bid, "node": w.randrange(n_nodes), "variant": "long_chain",
+                        "base": -2, "stages": base, "repeat": rep_k, "mode": "str", "layout": 0,
+                        "dataset": 0, "post": None, "qmd": False, "exec_before": False,
+                        "want_pickle": False, "hash_early": False, "lift": False,
+                        "limit": limit, "depths": w.choice([[0, 30, 120], [0, 10, 60, 250], [5, 0, 400]])})
+            bid += 1
     # constant family: values that are equal in Python but differ in type (1 == 1.0 == True),
     # captured one after the other in the same process, each with its written-out twin
     if w.random() < 0.7:
@@ -318,6 +330,17 @@ def execute(case):
         by_id = {r["id"]: r for r in res}
         for b in builds:
             r = by_id[b["id"]]
+            if "depth_hashes" in r:
+                stat("fault_hashed_with_little_stack")
+                hs = {h for h in r["depth_hashes"] if h is not None}
+                if any(h is None for h in r["depth_hashes"]):
+                    stat("hash_unobtainable_stack_exhausted")
+                if len(hs) > 1 and viol is None:
+                    viol = {"class": "C20/split", "detail": {"kind": "stack-depth", "build": _brief(b),
+                                                              "hashes": r["depth_hashes"]}}
+                if r.get("hash") is None:
+                    events.append(f"{b['id']}|overflow")
+                    continue
             if "error" in r:
                 stat("build_errors")
                 events.append(f"{b['id']}|error")
@@ -394,7 +417,8 @@ def execute(case):
     for meta, h, c in results:
         if meta.get("post") == "simplify" or meta.get("received"):
             continue  # fresh names depend on the node's counter; received ASTs are stripped
-        key = json.dumps([meta.get("stages"), meta.get("post"), meta.get("dataset", 0) % 3])
+        key = json.dumps([meta.get("stages"), meta.get("repeat"), meta.get("post"),
+                          meta.get("dataset", 0) % 3])
         by_spec.setdefault(key, []).append((meta, h))
     for key, lst in by_spec.items():
         for i in range(1, len(lst)):
@@ -438,7 +462,8 @@ def execute(case):
 
 def _brief(b):
     return {k: b.get(k) for k in ("id", "node", "variant", "stages", "mode", "layout", "post", "qmd",
-                                  "exec_before", "rehash", "dataset", "lift", "hash_early")
+                                  "exec_before", "rehash", "dataset", "lift", "hash_early",
+                                  "repeat", "limit", "depths")
             if b.get(k) is not None}
 
 
